@@ -136,6 +136,7 @@ type httpEvent struct {
 	url   string
 	reqs  []node.Request
 	batch bool
+	ws    bool // a websocket upgrade request
 }
 
 type httpResult struct {
@@ -209,6 +210,7 @@ type World struct {
 	c20Progress  map[string]int64
 	c15Submitted bool
 	pendingJump  time.Duration
+	wsConns      []*wsConn
 	outcomeQ     []outcomeRec
 	onHookEvent  func(name string, kv ...any)
 	projCache    map[string][]string
@@ -310,6 +312,19 @@ func (simTransport) RoundTrip(req *http.Request) (*http.Response, error) {
 	host := req.URL.Hostname()
 	if w.dead.Load() || !w.liveHost(host) {
 		return nil, fmt.Errorf("dial tcp %s: connection refused (retired)", host)
+	}
+	if strings.EqualFold(req.Header.Get("Upgrade"), "websocket") {
+		v, err := w.sched.Park(req.Context(), "http", "http "+host+" ws-dial", &httpEvent{host: host, url: req.URL.String(), ws: true})
+		if err != nil {
+			return nil, err
+		}
+		if res := v.(httpResult); res.err != nil {
+			return nil, res.err
+		} else if res.status != http.StatusSwitchingProtocols {
+			return &http.Response{Status: fmt.Sprint(res.status), StatusCode: res.status, Proto: "HTTP/1.1", ProtoMajor: 1, ProtoMinor: 1,
+				Header: http.Header{}, Body: io.NopCloser(bytes.NewReader(nil)), Request: req}, nil
+		}
+		return w.wsUpgrade(req, host)
 	}
 	reqs, batch, err := node.ParseBody(body)
 	if err != nil {
@@ -619,6 +634,9 @@ func (w *World) startGeneration() error {
 			poll = time.Second
 		}
 		ss.client = jrpc2.New(w.urlsFor(name)...).WithMaxReads(nIG).WithPollDuration(poll)
+		if ss.plan.WS {
+			ss.client = ss.client.WithWSURL("ws://" + strings.TrimPrefix(w.urlsFor(name)[0], "http://"))
+		}
 	}
 	var shared *pgxpool.Pool
 	// With one shared pool (as in the real binary) the tasks are built by the
@@ -640,6 +658,9 @@ func (w *World) startGeneration() error {
 				continue
 			}
 			conf.Sources[i].URLs = w.urlsFor(ss.plan.Name)
+			if ss.plan.WS {
+				conf.Sources[i].WSURL = "ws://" + strings.TrimPrefix(conf.Sources[i].URLs[0], "http://")
+			}
 			conf.Sources[i].BatchSize, conf.Sources[i].Concurrency = ss.batch, ss.conc
 		}
 		tasks, err := shovel.LoadTasks(context.Background(), shared, conf)
@@ -717,6 +738,7 @@ func (w *World) startGeneration() error {
 		w.mu.Unlock()
 		go w.actor(ps, w.gen, task)
 	}
+	w.startPruner()
 	return nil
 }
 
@@ -911,6 +933,7 @@ func finishRun(w *World, res *Result, plan *Plan, st *core.Stream, keepLog bool)
 
 func (w *World) teardown() {
 	w.dead.Store(true)
+	w.wsCloseAll(-1)
 	// drainOnce fails every parked HTTP/PG/step event and grants lock
 	// requests that are enabled (never one whose lock is still held: the
 	// real Lock() behind it would block on a mutex, which synctest cannot
